@@ -67,6 +67,11 @@ def gen_sweep(ctx, ndocs):
         if cs_class:
             kv["thr"] = 0
         cid = "c%d-%s" % (i, d["kind"])
+        if rng.random() < 0.35:      # InputSource kind / forced encoding / ids also vary on the ordinary documents
+            kv["src"] = rng.choice(G.SRC_KINDS[api])
+            kv["tmp"] = os.path.join(V.BUILD, "c18-work", "tmp-%s.xml" % cid)
+            if rng.random() < 0.5:
+                kv["enc"] = rng.choice(G.ENCODINGS[1:])
         out.append((cid, d["kind"] + "/" + api, case_line(cid, d, kv)))
         # object lifetimes of DOM documents and grammar pools on a part of the pool
         if i % 3 == 0:
@@ -91,6 +96,96 @@ def gen_sweep(ctx, ndocs):
             kv3 = dict(d["cfg"]); kv3.update(api=rng.choice(["sax2", "sax", "dom"]), scn="IG", life="L" + life)
             cid3 = "p%d-%s" % (i, d["kind"])
             out.append((cid3, "poollife", case_line(cid3, d, kv3).replace("case ", "poollife ", 1)))
+    return out
+
+
+def gen_round2(ctx, thorough):
+    """systematic additions: (a) DOCTYPE x schema x features x scanner cross product, (b) failing external resources at every
+    nesting level, (c) InputSource kinds x forced encodings, (d) exhaustive DOM parser lifetime histories.
+    returns list of (case-id, kind, line)"""
+    import itertools
+    rng = ctx.rng
+    work = os.path.join(V.BUILD, "c18-work")
+    os.makedirs(work, exist_ok=True)
+    out = []
+
+    def add(cid, kind, d, kv, op="case"):
+        dd = dict(doc=d["doc"], ext=d.get("ext", {}))
+        kv = dict(kv)
+        if d.get("extenc"):
+            kv["extenc"] = ",".join("%s:%s" % (k, v) for k, v in sorted(d["extenc"].items()))
+        line = case_line(cid, dd, kv)
+        if op != "case":
+            line = line.replace("case ", op + " ", 1)
+        out.append((cid, kind, line))
+
+    # (a) cross product; every parser parses the document twice (base + again) before it is destroyed
+    for i, c in enumerate(G.combo_cases()):
+        apis = APIS if thorough else [APIS[(i + i // 4) % 4]]
+        for api in apis:
+            kv = dict(c["kv"])
+            full = (i % 8 == 3)
+            kv.update(api=api, exc=i % 4, pool=1 if i % 5 == 0 and not (c["kv"]["scn"] == "DG") else 0,
+                      mode="reuse" if i % 2 else "fresh", thr=1 if full else 0, prog=1 if full else 0)
+            if api == "ls":
+                kv["preload"] = 0
+            add("x%d%s-%s" % (i, api, c["tag"]), "combo/" + api, c, kv)
+    # (b) failing external resources: every ending on one API (all four in thorough), natural endings on another
+    for i, c in enumerate(G.extfail_cases()):
+        for j, api in enumerate(APIS):
+            full = thorough or j == i % 4
+            if not full and j != (i + 1) % 4:
+                continue
+            kv = dict(c["kv"])
+            kv.update(api=api, scn=["IG", "DG", "SG", "IG"][i % 4] if c["kv"].get("sch") else ["IG", "DG", "WF", "IG"][i % 4],
+                      exc=i % 4, mode="fresh" if i % 3 else "reuse", thr=1 if full else 0, prog=1 if full else 0)
+            if kv["scn"] == "WF":
+                kv["val"] = 0
+            add("e%d%s-%s" % (i, api, c["tag"]), "extfail/" + api, c, kv)
+    # (c) InputSource kinds x forced encodings
+    n = 0
+    for di, doc in enumerate(G.SRC_DOCS):
+        for api in APIS:
+            for src in G.SRC_KINDS[api]:
+                for enc in G.ENCODINGS:
+                    if di > 0 and not thorough and rng.random() > 0.12:
+                        continue
+                    unsupported = enc.startswith("x-no-such")
+                    kv = dict(api=api, scn=["IG", "WF", "DG", "SG"][n % 4], ns=n % 2, val=0, src=src, exc=n % 4,
+                              thr=1 if unsupported or n % 7 == 0 else 0, prog=1 if unsupported or n % 7 == 0 else 0,
+                              mode="reuse" if n % 3 == 0 else "fresh", pub="-//V//C18//EN" if n % 2 else "", sys="dir/doc%d.xml" % (n % 3))
+                    if enc:
+                        kv["enc"] = enc
+                    if not kv["pub"]:
+                        del kv["pub"]
+                    cid = "s%d%s-%s-%s" % (n, api, src, enc or "noenc")
+                    kv["tmp"] = os.path.join(work, "tmp-%s.xml" % cid)
+                    add(cid, "source/" + src, dict(doc=doc), kv)
+                    n += 1
+    # (d) lifetime histories of XercesDOMParser / DOMLSParser
+    hdoc = dict(doc=b'<?xml version="1.0"?><!DOCTYPE r SYSTEM "e.dtd"><r><a>t</a><a>u</a></r>',
+                ext={"e.dtd": b"<!ELEMENT r (a*)><!ELEMENT a (#PCDATA)>"})
+    hdoc2 = dict(doc=b'<r xmlns="urn:d"><a x="1">t</a><b/><nope></r>', ext={})
+    n = 0
+
+    def hist(api, h, d):
+        nonlocal n
+        kv = dict(api=api, hist=h, end=n % 2, val=1 if d is hdoc else 0, ns=n % 2, pool=1 if n % 11 == 0 else 0, scn="IG")
+        add("h%d%s-%s" % (n, api, h), "domhist/" + api, d, kv, op="domhist")
+        n += 1
+    for L in range(1, 6):
+        for h in itertools.product("PAXR", repeat=L):
+            hist("dom", "".join(h), hdoc)
+            if L <= 4:
+                hist("ls", "".join(h), hdoc)
+    if thorough:
+        for L in range(1, 5):
+            for h in itertools.product("PAXRFGSE", repeat=L):
+                hist("dom", "".join(h), hdoc2 if n % 3 == 0 else hdoc)
+    for _ in range(3000 if thorough else 300):
+        api = rng.choice(["dom", "dom", "ls"])
+        h = "".join(rng.choice("PPAAXRFGSE" if api == "dom" else "PPAAXRE") for _ in range(rng.randrange(3, 10)))
+        hist(api, h, hdoc2 if rng.random() < 0.3 else hdoc)
     return out
 
 
@@ -619,8 +714,8 @@ def run(ctx):
     thorough = ctx.tier == "thorough"
     stats = {}
     # ---- 1. main sweep ------------------------------------------------------------------------------
-    ndocs = 4000 if thorough else 96
-    sweep = gen_sweep(ctx, ndocs)
+    ndocs = 4000 if thorough else 72
+    sweep = gen_sweep(ctx, ndocs) + gen_round2(ctx, thorough)
     nchunks = 8
     chunks = [[] for _ in range(nchunks)]
     for i, c in enumerate(sweep):
@@ -632,25 +727,51 @@ def run(ctx):
     kinds = {}
     for _, kind, _ in sweep:
         kinds[kind] = kinds.get(kind, 0) + 1
-    with ThreadPoolExecutor(max_workers=min(8, V.NPROC)) as ex:
-        results = list(ex.map(lambda t: run_pipeline(xh, xm, t[1], "sweep%d" % t[0]), enumerate(sessions)))
-    allbad = 0
-    for lines, (rc1, rc2, o, err) in zip(sessions, results):
-        if rc1 != 0 or rc2 != 0:
-            # find the case that crashed: the last 'begin' echoed
+    def run_session(t):
+        """a session whose harness process dies is continued behind the request that killed it (at most 8 times), so one
+        crash neither hides the verdicts of the other requests nor is attributed to the wrong one"""
+        si, lines = t
+        parts = []
+        rest = list(lines)
+        for attempt in range(9):
+            rc1, rc2, o, err = run_pipeline(xh, xm, rest, "sweep%d-%d" % (si, attempt))
+            parts.append((rest, rc1, rc2, o, err))
+            if rc1 == 0 and rc2 == 0:
+                break
             last = [ln for ln in o if ln.startswith("req ")]
             cid = last[-1].split()[1] if last else None
-            req = [lines[0]] + [ln for ln in lines if cid and ln.split(" ", 2)[1] == cid] + [lines[-1]]
-            ctx.violation("harness-crash", {"what": "harness or monitor crashed (rc %s/%s)" % (rc1, rc2), "stderr": err[-1500:],
-                                            "case": cid, "request": req})
-            continue
-        verdicts, bad = judge(ctx, o, lines, "sweep", stats)
-        for label, ln in verdicts.items():
-            if ln.split()[2] == "ok" and int(ln.split()[-1].split("=")[1]) > 0:
-                ctx.distinct(label)
-        allbad += len(bad)
-        report_bad(ctx, bad, lines, "a block of an application-supplied manager was not returned exactly once "
-                                    "(verdict of the extracted monitor on the recorded trace)")
+            idx = [k for k, ln in enumerate(rest) if cid and len(ln.split(" ", 2)) > 1 and ln.split(" ", 2)[1] == cid]
+            if not idx or idx[-1] >= len(rest) - 2:
+                break
+            rest = [lines[0]] + rest[idx[-1] + 1:]
+        return parts
+
+    with ThreadPoolExecutor(max_workers=min(8, V.NPROC)) as ex:
+        results = list(ex.map(run_session, enumerate(sessions)))
+    allbad = 0
+    ncrash = 0
+    for parts in results:
+        for lines, rc1, rc2, o, err in parts:
+            if rc1 != 0 or rc2 != 0:
+                last = [ln for ln in o if ln.startswith("req ")]
+                cid = last[-1].split()[1] if last else None
+                req = [lines[0]] + [ln for ln in lines if cid and ln.split(" ", 2)[1] == cid] + [lines[-1]]
+                ncrash += 1
+                if ncrash <= 12:
+                    ctx.violation("harness-crash", {"what": "the library crashed the harness (signal %s) while serving this request; a double "
+                                                            "delete / use of released memory ends like this before the monitor sees it"
+                                                            % (-rc1 if rc1 < 0 else rc1), "stderr": err[-1500:], "case": cid, "request": req})
+                # the verdicts printed before the crash still count
+                o = [ln for ln in o if not (cid and ln.split()[1:2] == [cid])]
+            verdicts, bad = judge(ctx, o, lines, "sweep", stats)
+            for label, ln in verdicts.items():
+                if ln.split()[2] == "ok" and int(ln.split()[-1].split("=")[1]) > 0:
+                    ctx.distinct(label)
+            # the final 'term' verdict of a crashed part is meaningless (the process never terminated the library)
+            bad = [(lab, ln) for lab, ln in bad if not (rc1 != 0 and lab.startswith("s") and "." not in lab)]
+            allbad += len(bad)
+            report_bad(ctx, bad, lines, "a block of an application-supplied manager was not returned exactly once "
+                                        "(verdict of the extracted monitor on the recorded trace)")
     ctx.coverage["traces_validated_against_impl"] = stats.get("verdicts", 0)
     ctx.coverage["events_judged"] = stats.get("events", 0)
     ctx.coverage["input_distribution"] = {"cases": kinds, "endings": stats.get("outcomes", {})}
@@ -744,7 +865,7 @@ def run(ctx):
 
     # ---- 3. lifecycle: Initialize/Terminate sequences, each in its own process ----------------------
     t2 = time.time()
-    lifecycle(ctx, xh, xm, dflt, 120 if thorough else 24)
+    lifecycle(ctx, xh, xm, dflt, 120 if thorough else 18)
     ctx.note("lifecycle: %.1fs" % (time.time() - t2))
 
     # ---- 4. witnesses of the known findings (each in its own process) -------------------------------
